@@ -535,7 +535,12 @@ func checkC12(c *Ctx, r *Report) {
 			// verbatim
 			keyV := fmt.Sprintf("C12.verbatim:%s→%s@%s", rt.name, d.Kind, strings.TrimPrefix(d.Chain, rt.name))
 			p := "param:" + rt.fn.Params[1].Name()
-			if d.Arg == p || d.Arg == "bytes.Clone("+p+")" || d.Arg == "slices.Clone("+p+")" || d.Arg == "builtin:append(nil,"+p+")" {
+			arg := d.Arg
+			// a queue item that wraps the bytes in a struct: the one field that is set
+			if strings.HasPrefix(arg, "lit{") && strings.HasSuffix(arg, "}") && strings.Count(arg, "=") == 1 {
+				arg = arg[strings.Index(arg, "=")+1 : len(arg)-1]
+			}
+			if arg == p || arg == "bytes.Clone("+p+")" || arg == "slices.Clone("+p+")" || arg == "builtin:append(nil,"+p+")" {
 				r.OK(keyV, "delivers %s", d.Arg)
 			} else {
 				r.Fail(keyV, d.Pos, "delivers %s instead of the caller's bytes", d.Arg)
